@@ -31,6 +31,8 @@ TRUSTED_BASE = [
     "hand-written Lean model says what the code does: checked only by the correspondence runs (sampling)",
     "Python harness: generators, canonicalisers, driver client, Driver.lean parser, known-findings matcher",
     "numpy / pyproj / pykdtree / dask / shapely behave as documented (model parameters, see DESIGN.md §4)",
+    "where a translator tie exists (coverage.translator_tie): harness/py2lean.py renders the named /repo functions into Lean "
+    "faithfully (restricted Python subset; // % floored, round half-even, int() truncating, float literals exact, / exact)",
 ]
 
 
@@ -94,14 +96,16 @@ def lean_scan(files):
     return hits
 
 
-def lean_audit(pid, theorems):
+def lean_audit(pid, theorems, module=None, namespace=None):
     """`#print axioms` for every obligation; returns {theorem: [axioms] | None if missing}."""
     if not theorems:
         return {}, ""
-    scratch = LEAN / ".lake" / f"audit_{pid}_{os.getpid()}.lean"
-    body = [f"import PyresampleModel.Props.{pid}"]
+    module = module or f"Props.{pid}"
+    namespace = namespace or pid
+    scratch = LEAN / ".lake" / f"audit_{pid}_{namespace}_{os.getpid()}.lean"
+    body = [f"import PyresampleModel.{module}"]
     for t in theorems:
-        body.append(f"#print axioms PyresampleModel.{pid}.{t}")
+        body.append(f"#print axioms PyresampleModel.{namespace}.{t}")
     scratch.write_text("\n".join(body) + "\n")
     try:
         rc, out = _run(["lake", "env", "lean", str(scratch)], cwd=LEAN, timeout=1200)
@@ -111,7 +115,7 @@ def lean_audit(pid, theorems):
     # output blocks: "'Name' depends on axioms: [a, b]" or "'Name' does not depend on any axioms"
     flat = re.sub(r"\s+", " ", out)
     for t in theorems:
-        full = f"PyresampleModel.{pid}.{t}"
+        full = f"PyresampleModel.{namespace}.{t}"
         m = re.search(r"'" + re.escape(full) + r"' depends on axioms: \[([^\]]*)\]", flat)
         if m:
             res[t] = [a.strip() for a in m.group(1).split(",") if a.strip()]
@@ -333,12 +337,89 @@ def check_obligations(pid, thorough):
             ob["broken"].append(f"theorem {t} not found / audit failed")
         elif not set(ax) <= ALLOWED_AXIOMS:
             ob["broken"].append(f"theorem {t} uses axioms {sorted(set(ax) - ALLOWED_AXIOMS)}")
+    tie = idx.get("tie")
+    if tie:
+        check_tie(pid, tie, ob, modules)
     if thorough and not ob["broken"]:
         rc, out = _run(["lake", "env", "leanchecker"] + modules, cwd=LEAN, timeout=3000)
         ob["leanchecker"] = "ok" if rc == 0 else out[-800:]
         if rc != 0:
             ob["broken"].append("leanchecker rejected the compiled modules: " + out[-400:])
     return ob
+
+
+def regenerate_translation():
+    """Gen/Src.lean from /repo's working tree (harness/py2lean.py), under the build lock. -> report"""
+    sys.path.insert(0, str(VERIF / "harness"))
+    import py2lean
+    lock = open(LEAN / ".build.lock", "w")
+    fcntl.flock(lock, fcntl.LOCK_EX)
+    try:
+        src, report = py2lean.generate(REPO)
+        out = py2lean.OUT
+        if not out.exists() or out.read_text() != src:
+            out.write_text(src)
+        (out.parent / "report.json").write_text(json.dumps(report, indent=1))
+    finally:
+        fcntl.flock(lock, fcntl.LOCK_UN)
+        lock.close()
+    return report
+
+
+def check_tie(pid, tie, ob, modules):
+    """Translator tie (DESIGN.md §13): regenerate the Lean translation of /repo's scalar helpers, rebuild the tie module,
+    audit the tie theorems.  Anything that no longer checks is a broken obligation of this property."""
+    ob["tie"] = {"module": tie["module"], "functions": {}, "theorems": tie["theorems"]}
+    try:
+        report = regenerate_translation()
+    except Exception as e:  # noqa
+        ob["broken"].append(f"tie: translator failed: {type(e).__name__}: {e}")
+        return
+    for fn in tie["functions"]:
+        r = report.get(fn, {"ok": False, "error": "not in the translator's table"})
+        ob["tie"]["functions"][fn] = {k: r.get(k) for k in ("ok", "source", "sha", "error")}
+        if not r["ok"]:
+            ob["broken"].append(f"tie: {r.get('source', fn)} can no longer be translated to Lean ({r.get('error')}); "
+                                f"theorems {tie['theorems']} of {tie['module']} are not established for the current source")
+    mod = f"PyresampleModel.{tie['module']}"
+    ok, out = lean_build([mod])
+    if not ok:
+        errs = [l for l in out.splitlines() if "error" in l][:6]
+        # name the theorems whose proofs fail: last `theorem X` at or before each reported line
+        src_lines = (LEAN / (mod.replace(".", "/") + ".lean")).read_text().splitlines()
+        failing = []
+        for l in errs:
+            m = re.search(r"\.lean:(\d+):\d+: error", l)
+            if m:
+                for k in range(min(int(m.group(1)), len(src_lines)) - 1, -1, -1):
+                    mm = re.match(r"\s*theorem\s+(\S+)", src_lines[k])
+                    if mm:
+                        if mm.group(1) not in failing:
+                            failing.append(mm.group(1))
+                        break
+        ob["tie"]["failing_theorems"] = failing
+        ob["broken"].append(f"tie: theorem(s) {failing} of {mod} no longer check against the definitions generated from the "
+                            f"current source (Gen/Src.lean): " + " | ".join(errs)[-700:])
+        for t in tie["theorems"]:
+            ob["axioms"]["Tie." + t] = None
+        ob["theorems"] = ob["theorems"] + ["Tie." + t for t in tie["theorems"]]
+        return
+    files = [LEAN / (mod.replace(".", "/") + ".lean"), LEAN / "PyresampleModel" / "Gen" / "Prelude.lean",
+             LEAN / "PyresampleModel" / "Gen" / "Src.lean"]
+    hits = lean_scan(files)
+    if hits:
+        ob["scan_hits"] += hits
+        ob["broken"].append("forbidden tokens: " + "; ".join(hits[:5]))
+    axioms, _ = lean_audit(pid, tie["theorems"], module=tie["module"], namespace="Tie")
+    ob["theorems"] = ob["theorems"] + ["Tie." + t for t in tie["theorems"]]
+    for t, ax in axioms.items():
+        ob["axioms"]["Tie." + t] = ax
+        if ax is None:
+            ob["broken"].append(f"tie theorem {t} not found / audit failed")
+        elif not set(ax) <= ALLOWED_AXIOMS:
+            ob["broken"].append(f"tie theorem {t} uses axioms {sorted(set(ax) - ALLOWED_AXIOMS)}")
+    modules.append(mod)
+    modules.append("PyresampleModel.Gen.Src")
 
 
 def write_replay(pid, seed, k, rec):
@@ -460,6 +541,7 @@ def finish(ctx, ob, meta):
                            + (" && lake env leanchecker <modules>" if ctx.tier == "thorough" else ""),
             "trusted_base": TRUSTED_BASE + meta.get("trusted_base", []),
             "theorems": ob.get("axioms", {}),
+            "translator_tie": ob.get("tie", "none for this property"),
             "broken_obligations": ob["broken"],
             "leanchecker": ob.get("leanchecker", "not run (quick tier)"),
             "evaluations": ctx.evaluations,
